@@ -2,7 +2,13 @@
  * C16 — bit-array backend: ba_find_first_zero / ba_find_first_set (lib/ext2fs/blkmap64_ba.c).
  *
  * Both functions carry in-place loop contracts on all five loops (bit prefix, byte loop up to 8-byte pointer
- * alignment, 64-bit word loop, byte loop, bit tail); see the VERIF_LOOP hooks in blkmap64_ba.c.
+ * alignment, 64-bit word loop, byte loop, bit tail); see the VERIF_LOOP hooks in blkmap64_ba.c.  Besides the loop
+ * contracts the hooks contain, per function, two VERIF_CUT (assert-then-assume of the summary "bitpos/count
+ * window + ghost bit" after the word phase and after the byte phase: without the cut the base case of the last
+ * loop has to be proved over the product of the paths through the four earlier loops, > 500 s) and three
+ * VERIF_ANCHOR (assert pos == <invariant value>, then re-assign it: a pointer havocked by a loop contract
+ * otherwise dereferences to every object of the program, 2.4M clauses instead of 0.4M).  Both are checked
+ * obligations, not assumptions.  The all-properties query needs cadical (minisat > 500 s, cadical ~120 s).
  *
  * Set view: position p (start <= p <= real_end) is a member iff bit (p - start) of the bit array is 1.
  * Contract (from the property text: "answers find-first-zero / find-first-set as a set would"):
@@ -15,7 +21,7 @@
  * cstart < bmap->start, cend > bmap->end, start > end, so bitmap->start <= start <= end <= bitmap->end
  * (<= real_end).  The contract is stated for the weaker end <= bitmap->real_end (the whole allocated array).
  *
- * Pointer alignment: the array is placed at raw+misalign for all misalign in 0..7 (ba_common.h); CBMC's
+ * Pointer alignment: the array is placed at raw+misalign for all misalign in 0..7 (ba_env.h; the allocation ends exactly at the last byte the backend allocates); CBMC's
  * pointer-to-integer cast yields object-base|offset, malloc bases are 8-aligned in that encoding, so the
  * (uintptr_t)pos & 7 loop sees all eight alignments.
  */
@@ -32,6 +38,8 @@
  "functions": ["lib/ext2fs/blkmap64_ba.c:ba_find_first_zero"],
  "assumes": ["bit array capped at 2^20 bits (object-size cap); geometry, contents, search range and the 8 byte-misalignments of the array otherwise symbolic",
              "pointer-to-integer cast as modelled by CBMC (object base 8-aligned, low bits = offset)"],
+ "backend": "cadical",
+ "timeout": 600,
  "native": true
 }
 */
@@ -48,13 +56,12 @@
  "functions": ["lib/ext2fs/blkmap64_ba.c:ba_find_first_set"],
  "assumes": ["bit array capped at 2^20 bits (object-size cap); geometry, contents, search range and the 8 byte-misalignments of the array otherwise symbolic",
              "pointer-to-integer cast as modelled by CBMC (object base 8-aligned, low bits = offset)"],
+ "backend": "cadical",
+ "timeout": 600,
  "native": true
 }
 */
-#include "../bitmap/ba_common.h"
-
-#define ARR(bm) (((ext2fs_ba_private)(bm)->private)->bitarray)
-#define IN_RANGE(k, lo, hi_excl) ((k) >= (lo) && (k) < (hi_excl))
+#include "ba_env.h"
 
 static errcode_t ba_find_first_zero(ext2fs_generic_bitmap_64 bitmap, __u64 start, __u64 end, __u64 *out)
 	REQUIRES(bitmap->start <= start && start <= end && end <= bitmap->real_end)
